@@ -93,6 +93,35 @@ pub proof fn lemma_set_step(s: Seq<char>, list: Seq<char>, k: int, t: spec_fn(ch
     }
     lemma_fm_compose(s, f, g, h);
 }
+// the same step when a replacement text may repeat its own character (`x` -> `\x`): the list must then be duplicate-free
+pub proof fn lemma_set_step_self(s: Seq<char>, list: Seq<char>, k: int, t: spec_fn(char) -> Seq<char>)
+    requires 0 <= k < list.len(), list.no_duplicates(),
+        forall|c: char, i: int| 0 <= i < t(c).len() && list.contains(#[trigger] t(c)[i]) ==> t(c)[i] == c,
+    ensures fm(fm(s, set_map(list, k, t)), |c: char| if c == list[k] { t(list[k]) } else { seq![c] }) == fm(s, set_map(list, k + 1, t))
+{
+    let f = set_map(list, k, t); let h = set_map(list, k + 1, t);
+    let g = |c: char| if c == list[k] { t(list[k]) } else { seq![c] };
+    assert(list.take(k + 1) =~= list.take(k).push(list[k]));
+    assert forall|c: char| #[trigger] h(c) == fm(f(c), g) by {
+        reveal_with_fuel(fm, 3);
+        if list.take(k).contains(c) {
+            let tk = list.take(k); let i0 = choose|i: int| 0 <= i < tk.len() && tk[i] == c;
+            assert(list[i0] == c);
+            assert(list.take(k + 1)[i0] == c);
+            assert forall|i: int| 0 <= i < t(c).len() implies g(#[trigger] t(c)[i]) == seq![t(c)[i]] by {
+                if t(c)[i] == list[k] { assert(list.contains(list[k])); assert(t(c)[i] == c); assert(list[i0] == list[k]); }
+            }
+            lemma_fm_nomatch(t(c), g);
+        } else {
+            if c == list[k] { assert(list.take(k + 1)[k] == c); assert(fm(seq![c], g) =~= t(c)); }
+            else {
+                assert(!list.take(k + 1).contains(c)) by { if list.take(k + 1).contains(c) { let tk = list.take(k + 1); let i = choose|i: int| 0 <= i < tk.len() && tk[i] == c; if i < k { assert(list.take(k)[i] == c); } } }
+                assert(fm(seq![c], g) =~= seq![c]);
+            }
+        }
+    }
+    lemma_fm_compose(s, f, g, h);
+}
 pub proof fn lemma_set_map_zero(s: Seq<char>, list: Seq<char>, t: spec_fn(char) -> Seq<char>)
     ensures fm(s, set_map(list, 0, t)) == s
 {
